@@ -21,8 +21,10 @@ NONDET = {"int": "nondet_int()", "double": "nondet_double()", "bool": "nondet_bo
           "gvec": "gvec_symbolic()", "gptr": "gptr_symbolic()", "gobj": "gobj_symbolic()",
           "TypeDepth": "(TypeDepth) nondet_int()", "TypeOneDRule": "(TypeOneDRule) nondet_int()", "TypeRefinement": "(TypeRefinement) nondet_int()"}
 
-def harness(tag, params, post):
+def harness(tag, params, post, ret="void"):
     L = ["void h_%s(void){" % tag, "  TSG s; tsg_symbolic(&s);"]
+    if ret == "gvec":
+        L.append("  gvec ret_ = gvec_empty();")
     for n, k in params:
         L.append("  %s %s = %s;" % (k, n, NONDET[k]))
         if k == "gvec" and tag.startswith("setDomainTransform"):
@@ -32,7 +34,7 @@ def harness(tag, params, post):
         if k == "int" and n in ("dimensions", "outputs", "depth", "order"):
             L.append("  __CPROVER_assume(%s > -1000 && %s < 1000);" % (n, n))
     L.append("  TSG old = s;")
-    L.append("  TSGW_%s(&s%s);" % (tag, "".join(", " + n for n, k in params)))
+    L.append("  TSGW_%s(&s%s%s);" % (tag, "".join(", " + n for n, k in params), ", &ret_" if ret == "gvec" else ""))
     L.append("  common_post(&old, &s, %s);" % ("true" if tag.startswith("make") else "false"))
     if post:
         L.append(post)
@@ -43,8 +45,9 @@ def harness(tag, params, post):
 SERVES = {
     "C14": lambda tag: True,
     "C10": lambda tag: tag in ("setDomainTransform_vec", "clearDomainTransform", "clear"),
-    "C07": lambda tag: tag.startswith(("setSurplus", "setAniso", "clearRef", "mergeRef", "update", "loadNeeded")),
-    "C08": lambda tag: tag.startswith(("make", "update", "setSurplus", "setAniso")),
+    "C07": lambda tag: tag.startswith(("setSurplus", "setAniso", "clearRef", "mergeRef", "update", "loadNeeded", "beginConstruction")),
+    "C01": lambda tag: tag in ("beginConstruction", "loadNeededValues_vec", "loadNeededValues_ptr", "mergeRefinement", "clearRefinement"),
+    "C08": lambda tag: tag.startswith(("make", "update", "setSurplus", "setAniso", "getCandidate")),
 }
 
 REPLAY_F6 = r'''
@@ -67,6 +70,59 @@ int main_replay(){
   return 0;
 }
 '''
+REPLAY_G3 = r'''
+/* G3 on the real library: level limits set at make time (or by an earlier call) persist across every refinement / update / candidate call that passes none,
+ * for the vector and the raw-array overloads; getLevelLimits() reports them and no proposed point exceeds them (local polynomial: level = depth in the tree). */
+int main_replay(){
+  using namespace TasGrid;
+  int bad = 0;
+  std::vector<int> lim = {1, 2};
+  auto load = [](TasmanianSparseGrid &g){ std::vector<double> p = g.getNeededPoints(); std::vector<double> v(g.getNumNeeded()); for (int i = 0; i < g.getNumNeeded(); i++) v[i] = std::exp(p[2*i] + 2.0 * p[2*i+1]); g.loadNeededValues(v); };
+  auto check = [&](TasmanianSparseGrid &g, const char *what){ if (g.getLevelLimits() != lim) { std::printf("%s: the stored level limits were lost or replaced\n", what); bad++; } };
+  { auto g = makeLocalPolynomialGrid(2, 1, 1, 1, rule_localp, lim); load(g);
+    g.setSurplusRefinement(1.E-6, refine_classic, 0, std::vector<int>(), std::vector<double>()); check(g, "setSurplusRefinement(tol, criteria, output, {} , {}) on a local polynomial grid");
+    g.setSurplusRefinement(1.E-6, refine_classic, 0, (const int*) nullptr, (const double*) nullptr); check(g, "setSurplusRefinement(tol, criteria, output, nullptr) on a local polynomial grid"); }
+  { auto g = makeWaveletGrid(2, 1, 1, 1, lim); load(g);
+    g.setSurplusRefinement(1.E-6, refine_classic, 0, std::vector<int>(), std::vector<double>()); check(g, "setSurplusRefinement(tol, criteria, output, {}, {}) on a wavelet grid"); }
+  { auto g = makeSequenceGrid(2, 1, 1, type_level, rule_leja, std::vector<int>(), lim); load(g);
+    g.setSurplusRefinement(1.E-6, 0, std::vector<int>()); check(g, "setSurplusRefinement(tol, output, {}) on a sequence grid");
+    g.setAnisotropicRefinement(type_iptotal, 2, 0, std::vector<int>()); check(g, "setAnisotropicRefinement(type, growth, output, {}) on a sequence grid");
+    g.updateSequenceGrid(2, type_level, std::vector<int>(), std::vector<int>()); check(g, "updateSequenceGrid(depth, type, {}, {})"); }
+  { auto g = makeGlobalGrid(2, 1, 1, type_level, rule_clenshawcurtis, std::vector<int>(), 0.0, 0.0, nullptr, lim); load(g);
+    g.setAnisotropicRefinement(type_iptotal, 2, 0, std::vector<int>()); check(g, "setAnisotropicRefinement on a global grid");
+    g.updateGlobalGrid(2, type_level, std::vector<int>(), std::vector<int>()); check(g, "updateGlobalGrid(depth, type, {}, {})");
+    g.beginConstruction(); g.getCandidateConstructionPoints(type_level, 0, std::vector<int>()); check(g, "getCandidateConstructionPoints(type, output, {})"); }
+  __CPROVER_assert(bad == 0, "G3 level limits persist across calls that pass none");
+  return 0;
+}
+'''
+REPLAY_BEGIN = r'''
+/* beginConstruction() on a grid with loaded values and a pending refinement, on the real library: load some candidates, finish, load the points still
+ * reported as needed; every loaded value must be reproduced by evaluate() (C01) and loaded / needed sets stay disjoint (C07). */
+int main_replay(){
+  using namespace TasGrid;
+  int bad = 0;
+  for (int fam = 0; fam < 3; fam++) {
+    TasmanianSparseGrid g = (fam == 0) ? makeSequenceGrid(2, 1, 2, type_level, rule_leja) : (fam == 1) ? makeLocalPolynomialGrid(2, 1, 2, 1, rule_localp) : makeGlobalGrid(2, 1, 2, type_level, rule_clenshawcurtis);
+    auto f = [](double a, double b)->double{ return std::exp(a - 0.5 * b) + a * b; };
+    std::vector<double> p = g.getNeededPoints(), v(g.getNumNeeded()); for (int i = 0; i < g.getNumNeeded(); i++) v[i] = f(p[2*i], p[2*i+1]);
+    g.loadNeededValues(v);
+    if (fam == 1) g.setSurplusRefinement(1.E-5, refine_classic, 0); else g.setAnisotropicRefinement(type_iptotal, 4, 0, std::vector<int>());
+    g.beginConstruction();
+    if (g.getNumNeeded() != 0) { std::printf("family %d: %d needed points survive beginConstruction()\n", fam, g.getNumNeeded()); bad++; }
+    std::vector<double> c = (fam == 1) ? g.getCandidateConstructionPoints(1.E-5, refine_classic, 0) : g.getCandidateConstructionPoints(type_level, 0);
+    size_t n = c.size() / 2; if (n > 6) n = 6;
+    for (size_t i = 0; i < n; i++) g.loadConstructedPoints(std::vector<double>{c[2*i], c[2*i+1]}, std::vector<double>{f(c[2*i], c[2*i+1])});
+    g.finishConstruction();
+    if (g.getNumNeeded() > 0) { p = g.getNeededPoints(); v.resize(g.getNumNeeded()); for (int i = 0; i < g.getNumNeeded(); i++) v[i] = f(p[2*i], p[2*i+1]); g.loadNeededValues(v); }
+    p = g.getLoadedPoints(); int miss = 0;
+    for (int i = 0; i < g.getNumLoaded(); i++) { double y; g.evaluate(&p[2*i], &y); if (!(std::abs(y - f(p[2*i], p[2*i+1])) < 1.E-9)) miss++; }
+    if (miss) { std::printf("family %d: %d of %d loaded points are not reproduced\n", fam, miss, g.getNumLoaded()); bad++; }
+  }
+  __CPROVER_assert(bad == 0, "beginConstruction drops a pending refinement; afterwards loaded values are reproduced");
+  return 0;
+}
+'''
 REPLAY_EMPTY = {
  "loadNeededValues_vec": "  TasGrid::TasmanianSparseGrid g; std::vector<double> v(3, 1.0);\n  try{ g.loadNeededValues(v); std::printf(\"no exception\\n\"); }\n  catch(std::runtime_error &e){ std::printf(\"runtime_error: %s\\n\", e.what()); return 0; }\n  catch(std::invalid_argument &e){ std::printf(\"invalid_argument: %s\\n\", e.what()); return 0; }\n  return 0;",
 }
@@ -77,6 +133,10 @@ def make_replay(prop):
             hdr = ("Replay against the real library: the wrapper is called on an EMPTY grid; a null base pointer is dereferenced\n(the process dies with SIGSEGV instead of raising a documented exception).\nproperty %s job %s\nobligation %s: %s\nat %s"
                    % (prop, job.name, ob["name"], ob["description"], ob["location"]))
             return RP.write_and_run(prop, job.name + "." + ob["name"], hdr, ['"TasmanianSparseGrid.hpp"'], "", REPLAY_EMPTY[tag], lib="sg")
+        for key, body in (("G3 ", REPLAY_G3), ("beginConstruction", REPLAY_BEGIN)):
+            if key in ob["description"]:
+                hdr = "Replay through the public API of the real library (fixed scenarios for this obligation).\nproperty %s job %s\nobligation %s: %s\nat %s" % (prop, job.name, ob["name"], ob["description"], ob["location"])
+                return RP.write_and_run(prop, job.name + "." + ob["name"], hdr, ['"TasmanianSparseGrid.hpp"', '<cmath>'], body, "  main_replay();", lib="sg", timeout=60)
         if "F6" not in ob["description"]:
             return None, None, "ghost-protocol obligation: no concrete API input is derived"
         out = vals.get("output", "-1")
@@ -97,7 +157,7 @@ def jobs(tier, seed, prop):
     wtext, info = apiwrap.emit(R)
     cf = ContractFile("contracts/apiwrap.c")
     posts = {a[0]: t for k, a, t in cf.sections if k == "post"}
-    pre = '#include "tsg_shim.h"\nint tsg_exc;\n#define PROP_C07 %d\n#define PROP_C08 %d\n#define PROP_C14 %d\n' % (prop == "C07", prop == "C08", prop == "C14") + enums + '#line 1 "/verif/contracts/apiwrap.c"\n' + cf.text(("text",)) + preds + wtext
+    pre = '#include "tsg_shim.h"\nint tsg_exc;\n#define PROP_C07 %d\n#define PROP_C08 %d\n#define PROP_C14 %d\n' % (prop in ("C07", "C01"), prop in ("C08", "C07"), prop == "C14") + enums + '#line 1 "/verif/contracts/apiwrap.c"\n' + cf.text(("text",)) + preds + wtext
     out = []
     byname = {f["name"].split("[")[1].rstrip("]"): f for f in info["functions"]}
     sel = SERVES.get(prop, lambda t: True)
@@ -105,7 +165,7 @@ def jobs(tier, seed, prop):
         if not sel(w.tag):
             continue
         f = byname[w.tag]
-        h = harness(w.tag, f["params"], posts.get(w.tag, ""))
+        h = harness(w.tag, f["params"], posts.get(w.tag, ""), f.get("ret", "void"))
         out.append(Job("api.%s" % w.tag, pre + h, "h_%s" % w.tag, timeout=120, unwind=9,
                        functions=["%s:%d %s" % (f["file"], f["line"], f["name"])], info=info, replay=make_replay(prop),
                        assumed=["family objects (GridGlobal/Sequence/LocalPolynomial/Wavelet/Fourier constructors, updateGrid, set*Refinement, loadNeededValues, clear/mergeRefinement) are stubs: they throw only before they mutate, refinement touches only `needed`",
